@@ -136,7 +136,7 @@ def ordered_vector(ctx, body, t):
         obsc = ctx.F.method1('Envelope', 'elide_set_with_action')
         root = body
         if body.dk == 'Closure' and body.closure_parent:
-            root = ctx.F.by_path.get(body.closure_parent, body)
+            root = ctx.F.closure_host(body) or body
         if ok_ and obsc is not None and root.hash == obsc.hash:
             return True, 'element-wise digest-preserving image (obscuring recursion, C02.4) of %s' % why
         return False, 'an element-wise map whose digest preservation is not established here: %s' % fmt(st)
